@@ -88,6 +88,10 @@ structure Cfg where
   immediate : Bool         -- db_session.immediate  (= immediate or ddl or serializable or not optimistic)
   ddl : Bool               -- db_session.ddl
   reconnect : Bool         -- provider.should_reconnect(exc)   (False for SQLite and for DBAPIProvider)
+  initGuard : Bool := false
+                           -- which `SQLitePool._connect` the tree has.  false: `pool.con = con = sqlite.connect(...)` and
+                           -- then the initialisation (as released); true: the connection is initialised first, closed
+                           -- if that fails, and only then assigned to `pool.con` (fixes/C19-sqlitepool-connect-init.diff)
 
 /-! ### the exception/state monad -/
 
@@ -168,14 +172,25 @@ def conClose (cf : Cfg) (con : Nat) : M Unit := do
 
 /-! ### Pool / SQLitePool (file database) -/
 
-/-- `SQLitePool._connect`: `pool.con` is assigned BEFORE the two PRAGMAs run -/
+/-- `SQLitePool._connect`.  As released, `pool.con` is assigned BEFORE the two PRAGMAs run; with the proposed guard the
+    PRAGMAs run first, a failure closes the new connection, and `pool.con` is assigned last. -/
 def poolConnectNew (cf : Cfg) : M Unit := do
   let s ← getS
   let k := s.nextCon
   dbcall cf .connect k                                        -- sqlite.connect(filename, isolation_level=None, **kwargs)
-  modS (fun s => { s with nextCon := k + 1, poolCon := some k, fk := false, dirty := false })   -- pool.con = con = ...
-  conExecute cf k .pragmaFkOn                                 -- con.execute('PRAGMA foreign_keys = true')
-  conExecute cf k .pragmaLike                                 -- con.execute('PRAGMA case_sensitive_like = true')
+  if cf.initGuard then
+    modS (fun s => { s with nextCon := k + 1 })               -- con = ...
+    tryCatch (do
+        conExecute cf k .pragmaFkOn
+        conExecute cf k .pragmaLike)
+      (fun e => do
+        conClose cf k                                         -- except: con.close(); raise
+        raise e)
+    modS (fun s => { s with poolCon := some k, fk := true, dirty := false })   -- pool.con = con
+  else
+    modS (fun s => { s with nextCon := k + 1, poolCon := some k, fk := false, dirty := false })   -- pool.con = con = ...
+    conExecute cf k .pragmaFkOn                               -- con.execute('PRAGMA foreign_keys = true')
+    conExecute cf k .pragmaLike                               -- con.execute('PRAGMA case_sensitive_like = true')
 
 /-- `Pool.connect` -/
 def poolConnect (cf : Cfg) : M (Nat × Bool) := do
